@@ -69,6 +69,10 @@ XExec(m0, ins) ==
   ELSE IF op \in {"movlps", "vmovlps"} /\ no = 2 /\ d.k = "mem" /\ s.k = "reg" THEN
          (IF BadAddr(m0, d) THEN Fault(m0, "store through a register that holds no stack address")
           ELSE MemStore(m0, AddrOf(m0, d), 8, Low(RegGet(m0, s.g, s.id), 8)))
+  (* dynamic stack alignment `and sp, -N`: the stack pointer leaves the "arg" space; what is known afterwards is that it is   *)
+  (* N-aligned ("sp" space when N >= 16, "spx" otherwise); f's own arguments stay reachable through the frame pointer       *)
+  ELSE IF m0.family = "x86" /\ op = "and" /\ no = 2 /\ d.k = "reg" /\ d.g = "gp" /\ d.id = m0.sp /\ s.k = "imm" /\ s.d < 0 THEN
+         RegSet(m0, "gp", m0.sp, Ptr(IF 0 - s.d >= 16 THEN "sp" ELSE "spx", 0))
   ELSE IF m0.family = "a64" /\ op \in {"sub", "add"} /\ no = 3 /\ d.k = "reg" /\ s.k = "reg" /\ t.k = "imm" /\ RegGet(m0, s.g, s.id).t = "ptr" THEN
          LET p == RegGet(m0, s.g, s.id) IN RegSet(m0, d.g, d.id, Ptr(p.x, IF op = "add" THEN p.lo + t.d ELSE p.lo - t.d))
   ELSE IF m0.family = "a64" /\ op = "stp" /\ no = 3 /\ t.k = "mem" THEN
@@ -98,7 +102,7 @@ UnitOk(m0, cs, u) ==
        u.vi > Len(fa) \/ (v.t = "val" /\ v.i = FUnitOf(cs, src, u.vi) /\ v.c = "" /\ v.lo >= MMin(u.loc.sz, fa[u.vi].sz))
 BadUnits(m0, cs) == { q \in 1..Len(CUnits(cs)) : ~UnitOk(m0, cs, CUnits(cs)[q]) }
 AlignDemanded(cs) == cs.env \in {"x86-sysv", "x64-sysv", "x64-win", "a64-aapcs"}
-SpAligned(m0, cs) == LET spv == RegGet(m0, "gp", cs.sp) IN spv.t = "ptr" /\ spv.x = "arg" /\ spv.lo % 16 = 0
+SpAligned(m0, cs) == LET spv == RegGet(m0, "gp", cs.sp) IN spv.t = "ptr" /\ spv.x \in {"arg", "sp"} /\ spv.lo % 16 = 0
 
 (* ------------------------------------------------------------------------------------------------------------------------- *)
 VARIABLES c, pc, m
